@@ -52,25 +52,22 @@ func genC17(t *rapid.T) c17Case {
 	}
 	pool := rapid.SliceOfN(rapid.Uint64(), 1, 6).Draw(t, "pool")
 	hg := genC17Hash(pool)
-	n := rapid.IntRange(1, 60).Draw(t, "nsteps")
-	for i := 0; i < n; i++ {
-		var s c17Step
+	stepGen := rapid.Custom(func(t *rapid.T) c17Step {
 		switch k := rapid.IntRange(0, 19).Draw(t, "op"); {
 		case k < 11:
-			s = c17Step{Op: "add", H: hg.Draw(t, "h")}
+			return c17Step{Op: "add", H: hg.Draw(t, "h")}
 		case k < 14:
-			s = c17Step{Op: "addn", H: hg.Draw(t, "h"), N: rapid.IntRange(0, 20).Draw(t, "n")}
+			return c17Step{Op: "addn", H: hg.Draw(t, "h"), N: rapid.IntRange(0, 20).Draw(t, "n")}
 		case k < 16:
 			if rapid.Bool().Draw(t, "growPow") {
-				s = c17Step{Op: "grow", N: 1 << rapid.IntRange(0, maxPow).Draw(t, "pow")}
-			} else {
-				s = c17Step{Op: "grow", N: rapid.IntRange(0, 5000).Draw(t, "size")}
+				return c17Step{Op: "grow", N: 1 << rapid.IntRange(0, maxPow).Draw(t, "pow")}
 			}
+			return c17Step{Op: "grow", N: rapid.IntRange(0, 5000).Draw(t, "size")}
 		default:
-			s = c17Step{Op: "ff", J: rapid.IntRange(1, 4).Draw(t, "j")}
+			return c17Step{Op: "ff", J: rapid.IntRange(1, 4).Draw(t, "j")}
 		}
-		c.Steps = append(c.Steps, s)
-	}
+	})
+	c.Steps = rapid.SliceOfN(stepGen, 1, 60).Draw(t, "steps")
 	return c
 }
 
